@@ -29,7 +29,8 @@ def _compute_nodes(rng, nx, ny, sym):
     from openaerostruct.structures.compute_nodes import ComputeNodes
     s = _surf(rng, nx, ny, sym)
     return dict(factory=lambda: ComputeNodes(surface=s), ints=[nx, ny], consts=[s["fem_origin"]],
-                inputs=OrderedDict(mesh=s["mesh"]), outputs=["nodes"])
+                inputs=OrderedDict(mesh=s["mesh"]), outputs=["nodes"],
+                pattern=dict(op="ComputeNodesPattern", ints=[nx, ny], floats=[s["fem_origin"]], of="nodes", wrt="mesh"))
 
 
 @spec("LoadTransfer")
